@@ -72,10 +72,11 @@ func (in *InExpr) Resolve(types []reflect.Type, isVariadic bool) error {
 		param, ok := v.([]interface{})
 		if ok {
 
-		} else if isVariadic && i >= len(types)-1 {
-			// 可变参数需要展开参数数组, 为每个参数元素生成独立表达式
+		} else if rv := reflect.ValueOf(v); isVariadic && i >= len(types)-1 &&
+			(rv.Kind() == reflect.Slice || rv.Kind() == reflect.Array) {
+			// 可变参数需要展开参数数组, 为每个参数元素生成独立表达式;
+			// 其它值(数字、字符串、表达式等)本身就是一个参数, 不能按元素展开
 			expandArgs := make([]interface{}, 0)
-			rv := reflect.ValueOf(v)
 			for j := 0; j < rv.Len(); j++ {
 				expandArgs = append(expandArgs, rv.Index(j).Interface())
 			}
